@@ -63,13 +63,27 @@ let strong_families e =
   | e -> bad "strong_families: %s" (to_string e)
 
 (* ---------- proof outlines ---------- *)
-let po_error_name (e : M.Outline.po_error) = match e with
-  | AnnotatedFormulaWithInvalidRole -> "AnnotatedFormulaWithInvalidRole" | DuplicatedVariables -> "DuplicatedVariables"
-  | TakenPredicate -> "TakenPredicate" | FreeRhsVariables -> "FreeRhsVariables" | UndefinedRhsPredicate -> "UndefinedRhsPredicate"
-  | DefinedPredicateVariableListMismatch -> "DefinedPredicateVariableListMismatch" | TermsInDefinition -> "TermsInDefinition"
-  | MalformedInductiveLemma -> "MalformedInductiveLemma" | MalformedInductiveAntecedent -> "MalformedInductiveAntecedent"
-  | MalformedInductiveVariables -> "MalformedInductiveVariables" | MalformedInductiveTerm -> "MalformedInductiveTerm"
-  | MalformedDefinition -> "MalformedDefinition" | InvalidRoleForGeneralLemma -> "InvalidRoleForGeneralLemma"
+(* errors and warnings WITH the values they carry (audit B16): variant name, then the payload in
+   the order of the Rust variant's fields; the harness prints the same (harness/src/ext/tasks.rs) *)
+let po_error_items (e : M.Outline.po_error) : Sexp.t list = match e with
+  | AnnotatedFormulaWithInvalidRole a -> [ S "AnnotatedFormulaWithInvalidRole"; of_annot a ]
+  | DuplicatedVariables f -> [ S "DuplicatedVariables"; of_formula f ]
+  | TakenPredicate p -> [ S "TakenPredicate"; of_pred p ]
+  | FreeRhsVariables f -> [ S "FreeRhsVariables"; of_formula f ]
+  | UndefinedRhsPredicate (d, p) -> [ S "UndefinedRhsPredicate"; of_formula d; of_pred p ]
+  | DefinedPredicateVariableListMismatch f -> [ S "DefinedPredicateVariableListMismatch"; of_formula f ]
+  | TermsInDefinition (t, f) -> [ S "TermsInDefinition"; of_gterm t; of_formula f ]
+  | MalformedInductiveLemma f -> [ S "MalformedInductiveLemma"; of_formula f ]
+  | MalformedInductiveAntecedent f -> [ S "MalformedInductiveAntecedent"; of_formula f ]
+  | MalformedInductiveVariables f -> [ S "MalformedInductiveVariables"; of_formula f ]
+  | MalformedInductiveTerm f -> [ S "MalformedInductiveTerm"; of_formula f ]
+  | MalformedDefinition f -> [ S "MalformedDefinition"; of_formula f ]
+  | InvalidRoleForGeneralLemma a -> [ S "InvalidRoleForGeneralLemma"; of_annot a ]
+(* po_warning has the single constructor ExcessQuantifiedVariables (f : formula): extraction unboxes
+   it (`type po_warning = formula`, "singleton inductive") *)
+let po_warning_items (w : M.Outline.po_warning) : Sexp.t list = [ S "ExcessQuantifiedVariables"; of_formula w ]
+let po_error_sexp e = L (A "err" :: po_error_items e)
+let po_warnings_sexp ws = L (A "warnings" :: List.map (fun w -> L (po_warning_items w)) ws)
 let of_lemma (g : M.Outline.general_lemma) = L [ A "lemma"; of_pformulas g.gl_conjectures; of_pformulas g.gl_consequences ]
 let of_outline (o : M.Outline.proof_outline) =
   L [ A "outline"; L (List.map of_lemma o.forward_lemmas); L (List.map of_lemma o.backward_lemmas);
@@ -82,27 +96,36 @@ let proof_outline e =
   match e with
   | L [ spec; taken; ph ] ->
     (match M.Outline.from_specification (specification spec) (list_of pred taken) (placeholder_map (placeholders ph)) with
-     | M.Outline.Ok (o, ws) -> L [ A "ok"; of_outline o; L (A "warnings" :: List.map (fun _ -> S "ExcessQuantifiedVariables") ws) ]
-     | M.Outline.Err err -> L [ A "err"; S (po_error_name err) ]
+     | M.Outline.Ok (o, ws) -> L [ A "ok"; of_outline o; po_warnings_sexp ws ]
+     | M.Outline.Err err -> po_error_sexp err
      | M.Outline.Panic -> L [ A "panic" ])
   | e -> bad "proof_outline: %s" (to_string e)
 
 (* ---------- external equivalence ---------- *)
-let ext_error_sexp (e : M.External.ext_error) = match e with
-  | UnsupportedFormulaRepresentation -> L [ A "err"; S "UnsupportedFormulaRepresentation" ]
-  | NonTightProgram -> L [ A "err"; S "NonTightProgram" ]
-  | ProgramContainsPrivateRecursion -> L [ A "err"; S "ProgramContainsPrivateRecursion" ]
-  | InputOutputPredicatesOverlap -> L [ A "err"; S "InputOutputPredicatesOverlap" ]
-  | InputPredicateInRuleHead -> L [ A "err"; S "InputPredicateInRuleHead" ]
-  | OutputPredicateInUserGuideAssumption -> L [ A "err"; S "OutputPredicateInUserGuideAssumption" ]
-  | OutputPredicateInSpecificationAssumption -> L [ A "err"; S "OutputPredicateInSpecificationAssumption" ]
-  | PlaceholdersWithIdenticalNamesDifferentSorts -> L [ A "err"; S "PlaceholdersWithIdenticalNamesDifferentSorts" ]
-  | AssumptionContainsNonInputSymbols -> L [ A "err"; S "AssumptionContainsNonInputSymbols" ]
-  | SpecificationContainsUnsupportedRoles -> L [ A "err"; S "SpecificationContainsUnsupportedRoles" ]
-  | ProofOutlineError inner -> L [ A "err"; S "ProofOutlineError"; S (po_error_name inner) ]
+let ext_error_sexp (e : M.External.ext_error) =
+  let err name payload = L (A "err" :: S name :: payload) in
+  match e with
+  | UnsupportedFormulaRepresentation -> err "UnsupportedFormulaRepresentation" []
+  | NonTightProgram p -> err "NonTightProgram" [ of_program p ]
+  | ProgramContainsPrivateRecursion p -> err "ProgramContainsPrivateRecursion" [ of_program p ]
+  | InputOutputPredicatesOverlap ps -> err "InputOutputPredicatesOverlap" [ of_list of_pred ps ]
+  | InputPredicateInRuleHead ps -> err "InputPredicateInRuleHead" [ of_list of_pred ps ]
+  | OutputPredicateInUserGuideAssumption ps -> err "OutputPredicateInUserGuideAssumption" [ of_list of_pred ps ]
+  | OutputPredicateInSpecificationAssumption ps -> err "OutputPredicateInSpecificationAssumption" [ of_list of_pred ps ]
+  | PlaceholdersWithIdenticalNamesDifferentSorts n -> err "PlaceholdersWithIdenticalNamesDifferentSorts" [ of_str n ]
+  | AssumptionContainsNonInputSymbols a -> err "AssumptionContainsNonInputSymbols" [ of_annot a ]
+  | SpecificationContainsUnsupportedRoles a -> err "SpecificationContainsUnsupportedRoles" [ of_annot a ]
+  | ProofOutlineError inner -> err "ProofOutlineError" (po_error_items inner)
+let ext_warning_sexp (w : M.External.ext_warning) = match w with
+  | WNonTightProgram p -> L [ S "NonTightProgram"; of_program p ]
+  | WInconsistentDirectionAnnotation a -> L [ S "InconsistentDirectionAnnotation"; of_annot a ]
+  | WInvalidRoleWithinUserGuide a -> L [ S "InvalidRoleWithinUserGuide"; of_annot a ]
+  | WDefinitionWithWarning w -> L (S "DefinitionWithWarning" :: po_warning_items w)
+let ext_warnings_sexp ws = L (A "warnings" :: List.map ext_warning_sexp ws)
+(* the variant name alone: ops that read the warnings off the text the CLI prints (cli_verify) know the kind only *)
 let ext_warning_name (w : M.External.ext_warning) = match w with
-  | WNonTightProgram -> "NonTightProgram" | WInconsistentDirectionAnnotation -> "InconsistentDirectionAnnotation"
-  | WInvalidRoleWithinUserGuide -> "InvalidRoleWithinUserGuide" | WDefinitionWithWarning -> "DefinitionWithWarning"
+  | WNonTightProgram _ -> "NonTightProgram" | WInconsistentDirectionAnnotation _ -> "InconsistentDirectionAnnotation"
+  | WInvalidRoleWithinUserGuide _ -> "InvalidRoleWithinUserGuide" | WDefinitionWithWarning _ -> "DefinitionWithWarning"
 
 let ext_task = function
   | L [ A "external"; sp; p; ug; po; dec; dir; r; bypass; simplify; brk ] ->
@@ -138,7 +161,7 @@ let external_decompose e =
   | L [ task; comps ] ->
     catching (fun () ->
         match external_model comps (ext_task task) with
-        | M.Outline.Ok (ws, ps) -> L [ A "ok"; L (A "warnings" :: List.map (fun w -> S (ext_warning_name w)) ws); of_problems ps ]
+        | M.Outline.Ok (ws, ps) -> L [ A "ok"; ext_warnings_sexp ws; of_problems ps ]
         | M.Outline.Err err -> ext_error_sexp err
         | M.Outline.Panic -> L [ A "panic" ])
   | e -> bad "external_decompose: %s" (to_string e)
